@@ -677,7 +677,7 @@ fn damage_no_paths() -> BoxedStrategy<Damage> {
 
 /// markup tokens for the bounded-exhaustive "token documents": every element and attribute the loader interprets, in
 /// complete and defective forms (missing ID / ID-REF), text, and stray markup characters
-const TOKENS: [&[u8]; 30] = [
+const TOKENS: [&[u8]; 33] = [
     b"<fx:PDU ID=\"P\">",
     b"<fx:PDU>",
     b"</fx:PDU>",
@@ -708,6 +708,11 @@ const TOKENS: [&[u8]; 30] = [
     b"<ho:DESC>",
     b"<",
     b"&",
+    // comments: a complete one and the two forms shorter than their delimiters (the parser library accepts those only
+    // when its event buffer is not empty, and then panics: fix commit bb719f7)
+    b"<!--c-->",
+    b"<!-->",
+    b"<!--->",
 ];
 fn token(i: usize) -> &'static [u8] {
     if i < TOKENS.len() {
